@@ -161,6 +161,10 @@ class Family:
                 return "harmless"
             if isinstance(self.mod.find(fn.id), ast.FunctionDef):
                 return [("", fn.id)]
+            # a local that holds the result of a call (the record class handed out by lookupRecordType, a factory ...): calling it constructs an object
+            assigned = [st.value for st in statements(f) if isinstance(st, ast.Assign) and any(isinstance(t, ast.Name) and t.id == fn.id for t in st.targets)]
+            if assigned and all(isinstance(v, ast.Call) for v in assigned) and fn.id not in [a.arg for a in f.args.args]:
+                return "ctor"
             return None
         if name in HARMLESS:
             return "harmless"
@@ -223,6 +227,29 @@ class Family:
     def qual(self, key) -> str:
         return f"{Q}.{self.owner(*key) + '.' if key[0] else ''}{key[1]}"
 
+    def unpack_helpers(self) -> Dict[str, Tuple[int, int]]:
+        """Module-level functions of the shape  return struct.unpack(FMT, readPrecisely(FILE, struct.calcsize(FMT)))  (through locals):
+        name -> (index of the file parameter, index of the format parameter).  The size agreement holds by construction there."""
+        if getattr(self, "_uh", None) is not None:
+            return self._uh
+        out: Dict[str, Tuple[int, int]] = {}
+        for st in self.mod.tree.body:
+            if not isinstance(st, ast.FunctionDef):
+                continue
+            params = [a.arg for a in st.args.args]
+            rets = [x for x in ast.walk(st) if isinstance(x, ast.Return) and x.value is not None]
+            if len(rets) != 1 or len(params) < 2:
+                continue
+            defs = single_defs(st)
+            v = expand(rets[0].value, defs)
+            if isinstance(v, ast.Call) and call_name(v) in ("struct.unpack", "unpack") and len(v.args) == 2 and isinstance(v.args[0], ast.Name) and v.args[0].id in params:
+                b = v.args[1]
+                if isinstance(b, ast.Call) and call_name(b) == "readPrecisely" and len(b.args) == 2 and isinstance(b.args[0], ast.Name) and b.args[0].id in params \
+                        and isinstance(b.args[1], ast.Call) and call_name(b.args[1]) in ("struct.calcsize", "calcsize") and src(b.args[1].args[0]) == v.args[0].id:
+                    out[st.name] = (params.index(b.args[0].id), params.index(v.args[0].id))
+        self._uh = out
+        return out
+
 
 # ---------------------------------------------------------------------------------------------------------------
 
@@ -264,6 +291,21 @@ def _handled(g, node_ids: List[int], exc: str) -> bool:
         if not any(_handler_covers(h, exc) for h in hs):
             return False
     return True
+
+
+def unpack_view(e, fam: "Family", sz: "Sizes"):
+    """(format string, via helper?) when ``e`` is struct.unpack(FMT, ...) or <unpack helper>(file, FMT) with a constant FMT, else None."""
+    if not isinstance(e, ast.Call):
+        return None
+    if call_name(e) in ("struct.unpack", "unpack") and e.args:
+        fmt = sz.ceval(e.args[0])
+        return (fmt, False) if isinstance(fmt, str) else None
+    uh = fam.unpack_helpers()
+    nm = call_name(e)
+    if nm in uh and len(e.args) > uh[nm][1]:
+        fmt = sz.ceval(e.args[uh[nm][1]])
+        return (fmt, True) if isinstance(fmt, str) else None
+    return None
 
 
 class Sizes:
@@ -679,6 +721,9 @@ def check_escape(ctx, fam: Family):
                     if len(n.args) != 2:
                         _fail(f"{q}: unpack() call shape not recognised: {src(n)}")
                     fmt = sz.ceval(n.args[0])
+                    if not isinstance(fmt, str) and key[0] == "" and key[1] in fam.unpack_helpers():
+                        ctx.ok("escape/unpack-size", cons, "reads exactly struct.calcsize(fmt) bytes for the format it unpacks (checked at every call site: the format is constant there)")
+                        continue
                     if not isinstance(fmt, str):
                         check_computed_format(ctx, fam, q, g, sz, n, "struct.unpack")
                         continue
@@ -692,7 +737,13 @@ def check_escape(ctx, fam: Family):
                         ctx.violation("escape/unpack-size", cons, f"struct.unpack({fmt!r}) needs exactly {need} bytes but is given a byte string whose length depends on the message: struct.error escapes")
                     else:
                         ctx.check(size == need, "escape/unpack-size", cons, f"struct.unpack({fmt!r}) needs exactly {need} bytes, readPrecisely supplies {size}: every message reaching this point raises struct.error")
-                if isinstance(n, ast.Call) and call_name(n) in ("struct.calcsize", "calcsize", "struct.Struct", "struct.iter_unpack") and n.args:
+                if isinstance(n, ast.Call) and call_name(n) in fam.unpack_helpers():
+                    n_unpack += 1
+                    uv = unpack_view(n, fam, sz)
+                    if uv is None:
+                        _fail(f"{q}: the format handed to {call_name(n)}() is not a constant: {src(n)}")
+                    ctx.ok("escape/unpack-size", ctx.construct(q, n), f"{call_name(n)} reads calcsize({uv[0]!r}) = {struct.calcsize(uv[0])} bytes and unpacks them with the same format")
+                if isinstance(n, ast.Call) and call_name(n) in ("struct.calcsize", "calcsize", "struct.Struct", "struct.iter_unpack") and n.args and not (key[0] == "" and key[1] in fam.unpack_helpers()):
                     if not isinstance(sz.ceval(n.args[0]), str):
                         check_computed_format(ctx, fam, q, g, sz, n, call_name(n))
                 # ---- computed counts handed to callees that reject them with a disallowed exception
@@ -737,8 +788,9 @@ def check_escape(ctx, fam: Family):
                     if isinstance(idx, int) and not isinstance(idx, bool):
                         n_idx += 1
                         v = expand(n.value, sz.defs)
-                        if isinstance(v, ast.Call) and call_name(v) in ("struct.unpack", "unpack"):
-                            fmt = sz.ceval(v.args[0])
+                        uv = unpack_view(v, fam, sz)
+                        if uv is not None:
+                            fmt = uv[0]
                             cnt = struct_field_count(fmt) if isinstance(fmt, str) else 0
                             ctx.check(-cnt <= idx < cnt, "escape/constant-index", cons, f"index {idx} into the {cnt} values produced by unpack({fmt!r})")
                             continue
@@ -955,6 +1007,9 @@ def check_termination(ctx, fam: Family):
                             v = sz.ceval(x.args[1]) if len(x.args) == 2 else None
                             if isinstance(v, int) and v >= 1:
                                 progress.add(n)
+                        uvp = unpack_view(x, fam, sz)
+                        if uvp is not None and uvp[1] and struct.calcsize(uvp[0]) >= 1:
+                            progress.add(n)      # a read-and-unpack helper consumes calcsize(fmt) >= 1 bytes
                         if isinstance(x, ast.Call) and call_attr(x) == "decode" and isinstance(x.func.value, ast.Name):
                             for cn in fam.local_classes(f, key[0], x.func.value.id):
                                 cf = fam.func(cn, "decode")
@@ -999,6 +1054,9 @@ def _reads_on_every_path(ctx, fam: Family, key, f) -> bool:
                 v = sz.ceval(x.args[1])
                 if isinstance(v, int) and v >= 1:
                     reads.append(n)
+            uvp = unpack_view(x, fam, sz)
+            if uvp is not None and uvp[1] and struct.calcsize(uvp[0]) >= 1:
+                reads.append(n)
     return bool(reads) and must_pass(g, [g.entry], reads) is None
 
 
@@ -1125,23 +1183,57 @@ def _check_pointer_loop(ctx, fam, key, f, g, lp, heads, seeks, progress, cons):
     ctx.check(back is None, "termination/while-progress", cons, "an iteration can complete without reading a byte", witness=g.describe(back))
 
 
-def check_protocol_handlers(ctx, mod):
-    f = ctx.func(DNS, "DNSDatagramProtocol.datagramReceived")
-    g = ctx.cfg(f, exception_is_all=False)
+def check_protocol_handlers(ctx, mod, consts):
+    """The UDP protocol treats EOFError/ValueError from decoding as a malformed packet: caught (statically, following private helpers of the
+    class) and - evaluated on concrete malformed datagrams - neither raised to the reactor nor dispatched."""
+    cls = ctx.cls(DNS, "DNSDatagramProtocol")
+    entry = ctx.func(DNS, "DNSDatagramProtocol.datagramReceived")
+    ms = methods(cls)
+    todo, seen = [entry], []
+    while todo:
+        f = todo.pop()
+        if any(f is x for x in seen):
+            continue
+        seen.append(f)
+        for c in ast.walk(f):
+            if isinstance(c, ast.Call) and is_self_attr(c.func) and c.func.attr.startswith("_") and c.func.attr in ms:
+                todo.append(ms[c.func.attr])
+    sites = []
+    for f in seen:
+        g = ctx.cfg(f, exception_is_all=False)
+        for n in g.find(lambda x: isinstance(x, ast.Call) and call_attr(x) == "fromStr"):
+            sites.append((f, g, n))
     q = Q + ".DNSDatagramProtocol.datagramReceived"
-    calls = g.find(lambda x: isinstance(x, ast.Call) and call_attr(x) == "fromStr")
-    ctx.check(len(calls) == 1, "protocol/handles-malformed", q + " | <fromStr>", f"{len(calls)} fromStr call sites")
-    uses = g.find(lambda x: isinstance(x, ast.Call) and (call_attr(x) in ("messageReceived", "callback")))
-    for c in calls:
+    ctx.check(len(sites) == 1, "protocol/handles-malformed", q + " | <fromStr>", f"{len(sites)} fromStr call sites reachable from datagramReceived (one expected)")
+    for f, g, c in sites:
         hs = [h for h, l in g.succ[c] if l == "exc" and g.node(h).kind == "handler"]
         for exc in ("EOFError", "ValueError"):
             cov = [h for h in hs if _handler_covers(g.node(h).ast, exc)]
             ctx.check(bool(cov), "protocol/handles-malformed", q + f" | {exc}", f"{exc} raised while decoding a datagram is not caught: one malformed packet reaches the reactor as an error")
             for h in cov[:1]:
-                leak = g.path([h], uses, edge_ok=lambda a, b, l: True)
-                ctx.check(leak is None, "protocol/drops-malformed", q + f" | after {exc}", "a datagram that failed to decode is still dispatched", witness=g.describe(leak))
                 out = g.path([h], [g.raise_exit], edge_ok=lambda a, b, l: l == "raise" or l is None or l in ("T", "F"))
                 ctx.check(out is None, "protocol/drops-malformed", q + f" | {exc} not re-raised", "the handler re-raises", witness=g.describe(out))
+    # evaluated: malformed datagrams are dropped, a well-formed one is dispatched exactly once
+    from sa.props._lib_g import Inst, MiniEval, Stub, _ClassRef, class_const, run_eval
+    classes = module_classes(mod)
+    reg = {}
+    for nme, c in classes.items():
+        if nme.startswith("Record_"):
+            t = class_const(mod, c, "TYPE", consts)
+            if isinstance(t, int):
+                reg[t] = _ClassRef(c)
+    good = b"\x12\x34\x01\x00\x00\x01\x00\x00\x00\x00\x00\x00\x07example\x03org\x00\x00\x01\x00\x01"
+    cases = [("a 5-byte datagram", b"\x00\x01\x02\x03\x04", 0), ("a name whose compression pointer points to itself", good[:12] + b"\xc0\x0c\x00\x01\x00\x01", 0), ("a well-formed query", good, 1)]
+    for label, data, want in cases:
+        ev = MiniEval(mod, consts=consts, class_overrides={("Message", "_recordTypes"): dict(reg)}, helpers={"nativeString": lambda b: b.decode("ascii") if isinstance(b, bytes) else b})
+        ctl = Stub("controller")
+        proto = Inst(cls, liveMessages={}, resends={}, controller=ctl, transport=Stub("transport"))
+        k, v = run_eval(lambda: ev.method(proto, "datagramReceived", [data, ("192.0.2.1", 53)]))
+        if k == "unsupported":
+            _fail(f"DNSDatagramProtocol.datagramReceived uses a construct outside the interpreted subset: {v}")
+        n = len(ctl.called("messageReceived"))
+        ctx.check(k == "value" and n == want, "protocol/drops-malformed", q + f" | {label}",
+                  f"{label}: datagramReceived {'raises ' + str(v) if k != 'value' else 'returns'} and dispatches {n} message(s); expected no exception and {want} dispatch(es)")
 
 
 def check(ctx):
@@ -1158,7 +1250,7 @@ def check(ctx):
         check_read_precisely(ctx, fam)
     check_termination(ctx, fam)     # one section per family member inside
     with ctx.section("protocol handlers"):
-        check_protocol_handlers(ctx, mod)
+        check_protocol_handlers(ctx, mod, consts)
 
 
 MUTANTS = [
@@ -1215,6 +1307,14 @@ MUTANTS = [
 ]
 
 SILENT = [
+    Silent("read-and-unpack-helper", DNS, "def readPrecisely(file, l):\n", "def _readFields(file, fmt):\n    return struct.unpack(fmt, readPrecisely(file, struct.calcsize(fmt)))\n\n\ndef readPrecisely(file, l):\n",
+           more=[(DNS, "        buff = readPrecisely(strio, 4)\n        self.type, self.cls = struct.unpack(\"!HH\", buff)\n", "        self.type, self.cls = _readFields(strio, \"!HH\")\n"),
+                 (DNS, "            L = struct.unpack(\"!B\", readPrecisely(strio, 1))[0]\n", "            (L,) = _readFields(strio, \"!B\")\n"),
+                 (DNS, "        self.preference = struct.unpack(\"!H\", readPrecisely(strio, 2))[0]\n", "        self.preference = _readFields(strio, \"!H\")[0]\n")]),
+    Silent("record-class-local-renamed-and-branch-inverted", DNS, "            t = self.lookupRecordType(header.type)\n            if not t:\n                continue\n            header.payload = t(ttl=header.ttl)\n            try:\n                header.payload.decode(strio, header.rdlength)\n            except EOFError:\n                return\n            list.append(header)\n",
+           "            recordClass = self.lookupRecordType(header.type)\n            if recordClass:\n                header.payload = recordClass(ttl=header.ttl)\n                try:\n                    header.payload.decode(strio, header.rdlength)\n                except EOFError:\n                    return\n                list.append(header)\n"),
+    Silent("datagram-decoding-in-helper", DNS, "        m = Message()\n        try:\n            m.fromStr(data)\n        except EOFError:\n            log.msg(\"Truncated packet (%d bytes) from %s\" % (len(data), addr))\n            return\n        except ValueError as ex:\n            log.msg(f\"Invalid packet ({ex}) from {addr}\")\n            return\n        except BaseException:\n",
+           "        m = self._parse(data, addr)\n        if m is None:\n            return\n        self._deliver(m, addr)\n\n    def _parse(self, data, addr):\n        m = Message()\n        try:\n            m.fromStr(data)\n        except (EOFError, ValueError) as ex:\n            log.msg(f\"Bad packet ({ex!r}) from {addr}\")\n            return None\n        return m\n\n    def _deliver(self, m, addr):\n        try:\n            pass\n        except BaseException:\n"),
     Silent("name-decode-not-in", DNS, "                if new_off in visited:\n                    raise ValueError(\"Compression loop in encoded name\")\n                visited.add(new_off)\n",
            "                if new_off not in visited:\n                    visited.add(new_off)\n                else:\n                    raise ValueError(\"Compression loop in encoded name\")\n"),
     Silent("visited-as-list-renamed", DNS, "        visited = set()\n        self.name = b\"\"\n", "        seenOffsets = []\n        self.name = b\"\"\n",
